@@ -168,6 +168,7 @@ func engineLoadFaults(ctx *Ctx) {
 		{MaxAttempts: 10, BaseDelay: time.Duration(1 << 62), MaxDelay: 10 * time.Microsecond, BackoffFactor: 3},
 	}
 	caseNo := 0
+	moveAt := 0 // > 0: at that attempt the fault moves from the main file to the notebook
 	run := func(mf, pf, bf string, cfg recovery.RetryConfig, transientAt int) {
 		caseNo++
 		if caseNo%ctx.NShards != ctx.Shard {
@@ -193,6 +194,16 @@ func engineLoadFaults(ctx *Ctx) {
 					if pf != "missing" {
 						c15Make(persP, "valid", persCmds)
 					}
+				}
+			}
+		}
+		if moveAt > 0 {
+			ctx.R.Path("loads-whose-fault-moves-to-the-other-file", 1)
+			cs["fault_moves_to_the_notebook_at_attempt"] = moveAt
+			obs.onAtt = func(n int) {
+				if n == moveAt { // a sync tool rewrites both files while the load is retrying: the main file is whole again, the notebook is not
+					c15Make(mainP, "valid", mainCmds)
+					c15Make(persP, "malformed-yaml", persCmds)
 				}
 			}
 		}
@@ -238,7 +249,9 @@ func engineLoadFaults(ctx *Ctx) {
 		// which database?
 		expectReal := false
 		ambiguous := false
-		if transientAt > 0 {
+		if moveAt > 0 {
+			ambiguous = true // (which database comes back is not what these cases are about: attempts and waits are)
+		} else if transientAt > 0 {
 			maxA := cfg.MaxAttempts
 			expectReal = transientAt < maxA // repaired before the last permitted attempt
 			if !expectReal {
@@ -350,6 +363,67 @@ func engineLoadFaults(ctx *Ctx) {
 				}
 			}
 		}
+	}
+	// the fault moves: the main file fails for the first attempts, then it is whole and the notebook fails instead
+	for _, mf := range []string{"malformed-yaml", "binary-garbage", "wrong-shape"} {
+		for j := 1; j <= 4; j++ {
+			for _, cfg := range []recovery.RetryConfig{{MaxAttempts: 6, BaseDelay: 50 * time.Microsecond, MaxDelay: 5 * time.Millisecond, BackoffFactor: 2},
+				{MaxAttempts: 8, BaseDelay: 20 * time.Microsecond, MaxDelay: 2 * time.Millisecond, BackoffFactor: 1.5}, {MaxAttempts: 5, BaseDelay: 100 * time.Microsecond, MaxDelay: time.Second, BackoffFactor: 3}} {
+				moveAt = j
+				run(mf, "valid", "missing", cfg, 0)
+				moveAt = 0
+			}
+		}
+	}
+	// the notebook path names the main file itself (wtf --database <notebook>; a dotfiles set-up that links one to the other): the same
+	// path, another spelling of it, a hard link, a symbolic link. Both load, so the answer is the main entries followed by the
+	// notebook entries - the same entries twice.
+	for k, rel := range []string{"same-path", "dot-slash-spelling", "hard-link", "symbolic-link", "copy"} {
+		caseNo++
+		if caseNo%ctx.NShards != ctx.Shard {
+			continue
+		}
+		c15Make(mainP, "valid", mainCmds)
+		os.Remove(persP)
+		pp := persP
+		switch rel {
+		case "same-path":
+			pp = mainP
+		case "dot-slash-spelling":
+			pp = filepath.Join(filepath.Dir(mainP), ".", "sub", "..", filepath.Base(mainP))
+			pp = filepath.Dir(mainP) + "/./" + filepath.Base(mainP)
+		case "hard-link":
+			os.Link(mainP, persP)
+		case "symbolic-link":
+			os.Symlink(mainP, persP)
+		default:
+			b, _ := os.ReadFile(mainP)
+			os.WriteFile(persP, b, 0o644)
+		}
+		cs := map[string]interface{}{"main": "valid", "personal": "names the main file: " + rel, "k": k}
+		ctx.R.Begin(cs)
+		ctx.R.Eval(1)
+		var db *database.Database
+		var err error
+		if ctx.R.Guard("C15", "LoadDatabaseWithFallback", cs, func() {
+			db, err = recovery.NewDatabaseRecovery(recovery.RetryConfig{MaxAttempts: 2, BaseDelay: time.Microsecond, MaxDelay: time.Millisecond, BackoffFactor: 2}).LoadDatabaseWithFallback(mainP, pp)
+		}) {
+			n := -1
+			if db != nil {
+				n = len(db.Commands)
+			}
+			ok := err == nil && n == 2*len(mainCmds)
+			for i := 0; ok && i < len(mainCmds); i++ {
+				ok = db.Commands[i].Command == mainCmds[i].Command && db.Commands[len(mainCmds)+i].Command == mainCmds[i].Command
+			}
+			if !ok {
+				ctx.R.Violate(vlib.Violation{Property: "C15", Clause: "real-database-not-returned", Path: "LoadDatabaseWithFallback",
+					Detail: fmt.Sprintf("the main file (%d entries) loads and the notebook path (%s) names a file that loads with the same %d entries; the returned database has %d entries (error: %v), not main entries followed by notebook entries", len(mainCmds), rel, len(mainCmds), n, err), Witness: cs})
+			}
+			ctx.R.Path("notebook-paths-that-name-the-main-file", 1)
+			ctx.R.Nontriv("same-file", rel)
+		}
+		os.Remove(persP)
 	}
 	for _, cfg := range steep {
 		for _, mf := range []string{"malformed-yaml", "is-a-directory", "binary-garbage", "wrong-shape"} {
